@@ -10,6 +10,9 @@ restores the streams on its timeout path.  By interpretation over a model of the
 with the shared sink usable / closed / detached yields one usable shared sink; enter -> a test case
 that rebinds stdin, stdout, stderr, raises the logging threshold and the root level and closes fds
 0-2 -> restore() leaves every facet as before.  Hidden state of the module under test is not decided.
+Further clauses (added later): C30.sink is interpreted with filesystem isolation active (the builtin open
+refuses /dev/null) when the executor enters the isolation first; C30.tracked (must-pass): every seeded Random
+instance is registered for reseeding.
 """
 
 from __future__ import annotations
